@@ -17,6 +17,9 @@ from vlib.runner import HarnessError, Layer, Property
 P = "C16"
 SIZES = [1, 2, 254, 255, 256, 257, 509, 510, 511, 512]
 INT_W = {"u8": 1, "u16": 2, "bu16": 2, "u32": 4, "u64": 8, "u128": 16}
+# 128-bit values as accessories really send them: types on the HAP base UUID (xxxxxxxx-0000-1000-8000-0026BB765291) and a vendor UUID
+HAP_BASE = 0x0000_0000_0000_1000_8000_0026BB765291
+REAL_UUIDS = [HAP_BASE | (t << 96) for t in (0x25, 0x3E, 0x23, 0xA5, 0x0706)] + [0xE863F10A_079E_48FF_8F27_9C2605A29F52]
 
 
 def all_struct_classes():
@@ -316,7 +319,7 @@ def field_value(draw, k, depth):
     if k[0] == "int":
         w = INT_W[k[1]]
         top = (1 << (8 * w)) - 1
-        return draw(st.one_of(st.sampled_from(sorted({0, 1, 127, 128, 255, 256 & top, top, top - 1, top >> 1, 0x1000 & top, 0x0010})),
+        return draw(st.one_of(st.sampled_from(sorted({0, 1, 127, 128, 255, 256 & top, top, top - 1, top >> 1, 0x1000 & top, 0x0010} | (set(REAL_UUIDS) if w == 16 else set()))),
                               st.integers(0, top)))
     if k[0] == "enum":
         return int(draw(st.sampled_from(list(k[2]))))
@@ -391,7 +394,7 @@ def enum_boundary(tier):
             k = kind(f.type)
             if k[0] == "int":
                 top = (1 << (8 * INT_W[k[1]])) - 1
-                vals = sorted({0, 1, 0x10, 0xFF, 0x100 & top, 0x1000 & top, 0xFF00 & top, top, top - 1})
+                vals = sorted({0, 1, 0x10, 0xFF, 0x100 & top, 0x1000 & top, 0xFF00 & top, top, top - 1} | (set(REAL_UUIDS) if INT_W[k[1]] == 16 else set()))
             elif k[0] == "enum":
                 vals = [int(m) for m in k[2]]
             elif k[0] == "bytes":
@@ -416,7 +419,7 @@ PERM_BITS = [(0x0010, "pr"), (0x0020, "pw"), (0x0080, "ev"), (0x0004, "aa"), (0x
 def char_desc(draw, with_service=False, iid=None):
     fmt = draw(st.sampled_from(sorted(FORMATS)))
     name, code = FORMATS[fmt]
-    d = {"type": draw(st.one_of(st.sampled_from([0x25, 0x23, 0x10, 0x0100, 0xFF, 1 << 120]), st.integers(1, (1 << 128) - 1))),
+    d = {"type": draw(st.one_of(st.sampled_from([0x25, 0x23, 0x10, 0x0100, 0xFF, 1 << 120] + REAL_UUIDS), st.integers(1, (1 << 128) - 1))),
          "iid": iid if iid is not None else draw(st.one_of(st.sampled_from([1, 0x10, 0x100, 0x1000, 0xFF00, 65535]), st.integers(1, 65535))),
          "props": draw(st.integers(0, 0x3FF)), "fmt": fmt,
          "unit": draw(st.sampled_from(sorted(UNITS) + [0x1234]))}
